@@ -768,6 +768,11 @@ func genStatus(r *rand.Rand, i int) *Program {
 		k := r.Intn(g.k)
 		p.Threads = append(p.Threads, []Op{{Op: "jresult", K: k}, {Op: "jclose", K: k}, {Op: "jstatus", K: k}})
 	}
+	if r.Intn(3) == 0 {
+		// an owner that is not interested in the outcome: Drain() right after the submission, while the job is on its way
+		k := r.Intn(g.k)
+		p.Threads = append(p.Threads, []Op{{Op: "jdrain", K: k}, {Op: "jstatus", K: k}, {Op: "jwait", K: k}, {Op: "jstatus", K: k}})
+	}
 	return p
 }
 
